@@ -511,7 +511,7 @@ impl CheckDef for LossFree {
 }
 
 pub fn run(ctx: &mut Ctx) {
-    ctx.rule("(a) E2E fair-lossy: generated bidirectional transfers (0..60/300 KB each way), chunking, pauses, buffers/MTU/Nagle/ISN; fault plan with per-identity drop budget k in {1,2} (pure ACK identity = (direction, ack_nr): fairer than required), delay/duplication <= 150 ms; handshake never faulted. Oracle: by the virtual deadline 60 s + 65 s x drops + pauses + stop-and-wait rounds everything written has been read, flush/shutdown resolved, EOF seen, no operation failed (a miss is re-run with 4x the deadline before being reported). non-trivial = >=3 drops incl. a pure ACK and >=5 KB. (b) E2E loss-free, latency 1..200 ms, readers always reading, writers with pauses incl. idle gaps > 6 s, flush/shutdown points: silent interval with undelivered bytes <= 2L+40 ms(+2), write on idle => data at the same instant, shutdown on idle => FIN at the same instant, L<=60 ms => no retransmission at all. non-trivial = >=1 write or shutdown on an idle connection. distinct by hash of the wire log shape");
+    ctx.rule("(a) E2E fair-lossy: generated bidirectional transfers (0..60/300 KB each way), chunking, pauses, buffers/MTU/Nagle/ISN; fault plan with per-identity drop budget k in {1,2} (pure ACK identity = (direction, ack_nr): fairer than required), delay/duplication <= 150 ms; handshake never faulted. Oracle: by the virtual deadline 60 s + 65 s x drops + pauses + stop-and-wait rounds everything written has been read, flush/shutdown resolved, EOF seen, no operation failed (a miss is re-run with 4x the deadline before being reported). non-trivial = >=3 drops incl. a pure ACK and >=5 KB. (b) E2E loss-free, latency 1..200 ms, equal links or (30 %) the writer behind the smaller link with the path MTU of that link and a reader that only acknowledges, readers always reading, writers with pauses incl. idle gaps > 6 s, flush/shutdown points: silent interval with undelivered bytes <= 2L+40 ms(+2), write on idle => data at the same instant, shutdown on idle => FIN at the same instant, L<=60 ms => no retransmission at all. non-trivial = >=1 write or shutdown on an idle connection. distinct by hash of the wire log shape");
     ctx.assume("virtual deadlines stand in for 'eventually'; tokio paused clock; sim::Net");
     ctx.replay_corpus::<Lossy>();
     ctx.replay_corpus::<LossFree>();
